@@ -274,7 +274,7 @@ def instances(tier):
     # the real run_contingency (initialisation of the result arrays, case loop, N-0, writing to the net) on several element types
     real = [[("line", 0), ("trafo", 0), ("trafo3w", 0)], [("trafo3w", 0), ("line", 0)]]
     if tier == "thorough":
-        real += [[("trafo", 0), ("line", 1), ("trafo3w", 0)], [("line", 0), ("line", 1), ("trafo", 0), ("trafo3w", 0)]]
+        real += [[("trafo", 0), ("line", 1), ("trafo3w", 0)]]        # (four cases: > 20 min with the cross-check, left out)
     for cases in real:
         nm = "run_contingency_" + "_".join(f"{e}{i}" for e, i in cases)
         out.append(Inst(nm, make_real(cases), nvars=60, samples=2, max_paths=60000, raises=(UserWarning,),
